@@ -497,6 +497,7 @@ func (se *SessionExecutor) getBackendKsConn(reqCtx *util.RequestContext, sliceNa
 		if err = pc.SetAutoCommit(0); err != nil {
 			pc.Close()
 			pc.Recycle()
+			pc = nil // already returned to the pool: the caller must not recycle it again
 			return
 		}
 	}
@@ -505,6 +506,7 @@ func (se *SessionExecutor) getBackendKsConn(reqCtx *util.RequestContext, sliceNa
 		if err = pc.Begin(); err != nil {
 			pc.Close()
 			pc.Recycle()
+			pc = nil // already returned to the pool: the caller must not recycle it again
 			return
 		}
 	}
@@ -534,18 +536,21 @@ func (se *SessionExecutor) getTransactionConn(sliceName string) (pc backend.Pool
 	if err = pc.SyncSessionVariables(se.sessionVariables); err != nil {
 		pc.Close()
 		pc.Recycle()
+		pc = nil // already returned to the pool: the caller must not recycle it again
 		return
 	}
 	if !se.isAutoCommit() {
 		if err = pc.SetAutoCommit(0); err != nil {
 			pc.Close()
 			pc.Recycle()
+			pc = nil // already returned to the pool: the caller must not recycle it again
 			return
 		}
 	} else {
 		if err = pc.Begin(); err != nil {
 			pc.Close()
 			pc.Recycle()
+			pc = nil // already returned to the pool: the caller must not recycle it again
 			return
 		}
 	}
